@@ -9,7 +9,7 @@ func init() {
 	register(&propDef{
 		id: "C29", title: "Per-message context metadata is restored on the receiver",
 		technique: "field-coverage + dataflow rule: the per-message Metadata is computed from the caller's context at submit time and restored from the same message on the server; enrich-before-send ordering on the non-coalesced paths",
-		explanation: "Decides: (1) coalesced tells: the RemoteMessage handed to the coalescer sets Metadata from injectMessageMetadata(ctx) with the caller's own ctx, computed on the caller's goroutine before submit; the coalescer's writer never touches Metadata (headers cannot be mixed up between callers that share a batch); injectMessageMetadata copies every injected header into the map; (2) non-coalesced tells/asks: the request context is enriched (enrichContext) before SendProto and the enriched context is the one passed to it, every error of the enrichment aborts the send; (3) server: for each message of a batch the context handed to the delivery is messageMetadata(ctx, m.GetMetadata()) of that same message m, with the request-level ctx only as parent; messageMetadata copies every map entry into the header set given to Extract; a metadata failure dead-letters that message only. Added after seed C29a: the header carrier handed to the propagator's Inject is a map allocated in that call, never taken from shared storage.",
+		explanation: "Decides: (1) coalesced tells: the RemoteMessage handed to the coalescer sets Metadata from injectMessageMetadata(ctx) with the caller's own ctx, computed on the caller's goroutine before submit; the coalescer's writer never touches Metadata (headers cannot be mixed up between callers that share a batch); injectMessageMetadata copies every injected header into the map; (2) non-coalesced tells/asks: the request context is enriched (enrichContext) before SendProto and the enriched context is the one passed to it, every error of the enrichment aborts the send; (3) server: for each message of a batch the context handed to the delivery is messageMetadata(ctx, m.GetMetadata()) of that same message m, with the request-level ctx only as parent; messageMetadata copies every map entry into the header set given to Extract; a metadata failure dead-letters that message only. Added after seed C29a: the header carrier handed to the propagator's Inject is a map allocated in that call, never taken from shared storage. Added after seed C29b: the coalescer's writer goroutine neither reads any message's metadata nor attaches request-level metadata to the batch RPC.",
 		assumptions: []string{"header equality for all maps (multi-valued headers keep their first value by design)", "the user-supplied ContextPropagator is deterministic"},
 		minObl:     60,
 		run:        runC29,
